@@ -4,6 +4,7 @@ mod driver;
 mod expect;
 mod framework;
 mod gen;
+mod lifecycle;
 mod oracles;
 mod scen;
 mod session;
